@@ -59,13 +59,13 @@ func Facts() (string, error) {
 	var b strings.Builder
 	b.WriteString("/-- (Go path, effective mapstructure key path, yaml key path, kind, canonical default, if the real Load overwrites this leaf of DefaultConfig: Go path of the pointer field behind which it lives, else \"\") -/\n")
 	b.WriteString("abbrev FieldRow := String × String × String × String × String × String\n")
-	b.WriteString("/-- (flag name, viper key bound by bindFlags, pflag type, default, Go paths of the fields the real Load changes when only this flag is given) -/\n")
+	b.WriteString("/-- (flag name, viper key the real bindFlags binds it to [behavioural: only this flag given, bindFlags run on a fresh viper, the key viper reports as set], pflag type, default, Go paths of the fields the real Load changes when only this flag is given [behavioural]) -/\n")
 	b.WriteString("abbrev FlagRow := String × String × String × String × List String\n")
 	for i, f := range fs {
 		fmt.Fprintf(&b, "def field%d : FieldRow := (%s, %s, %s, %s, %s, %s)\n", i, leanStr(f.Go), leanStr(f.MS), leanStr(f.YAML), leanStr(f.Kind), leanStr(f.Def), leanStr(f.Via))
 	}
 	for i, f := range fl {
-		fmt.Fprintf(&b, "def flag%d : FlagRow := (%s, %s, %s, %s, %s)\n", i, leanStr(f.Name), leanStr(f.Key), leanStr(f.Kind), leanStr(f.Def), leanStrList(f.Reaches))
+		fmt.Fprintf(&b, "def flag%d : FlagRow := (%s, %s, %s, %s, %s)\n", i, leanStr(f.Name), leanStr(f.Bound), leanStr(f.Kind), leanStr(f.Def), leanStrList(f.Reaches))
 	}
 	names := func(p string, n int) string {
 		xs := make([]string, n)
@@ -76,6 +76,13 @@ func Facts() (string, error) {
 	}
 	fmt.Fprintf(&b, "def fields : List FieldRow := %s\n", names("field", len(fs)))
 	fmt.Fprintf(&b, "def flags : List FlagRow := %s\n", names("flag", len(fl)))
+	// the naming rule of the property (NOT read from the code): flag name -> path of the option it names
+	b.WriteString("/-- (flag name, path in the configuration file of the option the flag NAMES: the name without the prefix `rollkit.`, except for the declared aliases `rollkit.signer.type|path` -> `signer.signer_type|signer_path`) - the property's vocabulary, declared by the fact generator, not read from the code -/\n")
+	var nm []string
+	for _, f := range fl {
+		nm = append(nm, fmt.Sprintf("(%s, %s)", leanStr(f.Name), leanStr(f.Key)))
+	}
+	fmt.Fprintf(&b, "def flagNames : List (String × String) := [%s]\n", strings.Join(nm, ", "))
 	return b.String(), nil
 }
 
